@@ -20,6 +20,7 @@ static Fields gen(Tape &t) {
   } else s = g_uri(t);
   f.set("text", s);
   f.seti("src", src);
+  f.seti("locale", t.chance(15, 16) ? 0 : 1);  // one case in 16 runs under C.UTF-8
   return f;
 }
 
@@ -147,7 +148,7 @@ static Verdict check_text(const std::string &text) {
   if (comps >= 3 || (m.hasAuth && m.hostKind >= HK_IP4) || pr.segs.size() >= 2) S.nontrivial(text, esc(text));
   return Verdict::pass();
 }
-static Verdict check(const Fields &f) { stats().hit("src=" + std::to_string(f.geti("src"))); return check_text(f.get("text")); }
+static Verdict check(const Fields &f) { stats().hit("src=" + std::to_string(f.geti("src"))); LocaleArm loc(f.geti("locale") != 0); return check_text(f.get("text")); }
 
 // the accepted members of C01's exhaustive enumerations
 static Verdict enumerate(int tier, int shard, int nshards, Fields *failing) {
